@@ -259,10 +259,10 @@ func s26Write(s *BadgerStore, node crypto.Hash, round uint64, works []*common.Sn
 }
 
 func (r *vpC26Run) reopen() {
-	if err := r.s.Close(); err != nil {
+	if err := vpSCloseSnapshotsOnly(r.s); err != nil {
 		r.t.Fatalf("close: %v", err)
 	}
-	r.s = vpSOpenStore(r.t, r.dir)
+	r.s = vpSOpenSnapshotsOnly(r.t, r.dir)
 	r.reopens++
 	r.trace = append(r.trace, "R")
 	r.m.check(r.t, r.s, "after reopen")
@@ -441,9 +441,9 @@ func vpC26Open(t *testing.T) *vpC26Shared {
 	if err != nil {
 		t.Fatal(err)
 	}
-	sh := &vpC26Shared{dir: dir, s: vpSOpenStore(t, dir)}
+	sh := &vpC26Shared{dir: dir, s: vpSOpenSnapshotsOnly(t, dir)}
 	t.Cleanup(func() {
-		_ = sh.s.Close()
+		_ = vpSCloseSnapshotsOnly(sh.s)
 		_ = os.RemoveAll(dir)
 	})
 	return sh
@@ -454,7 +454,7 @@ func TestVP_C26_history(t *testing.T) {
 	c := kit.New(t, "C26", "rapid: 7 fresh node ids per case on one shared store; 1..3 chains x 2..6 rounds x 1..6 snapshots (signer sets always containing the proposer, or a signer-less genesis-like first round), rounds within <3 s, day changes frequent, credit fixed per round (false whenever the round straddles midnight); T.Repeat of submissions that stay inside what kernel/mint.go guarantees (round <= offset+1, growing member sets, plus repeats and stale older rounds) with the store closed and reopened at drawn call boundaries followed by the kernel's restart re-submission; after every call ListNodeWorks for all nodes and days (and the days around) and ReadWorkOffset are compared with a set-semantics model; non-trivial = a round submitted >=3 times with a set that grew at least twice in a chain that spans >=2 days; distinct by the call trace")
 	c.Require("round-3x-growing", "two-days", "stale-round-ignored", "reopened", "no-credit-round", "genesis-like", "multi-chain", "round-straddles-midnight")
 	c.Assume("Badger commits are atomic and durable (SyncWrites): a crash is modelled as close+reopen at a call boundary", "snapshots without signers (genesis) earn their proposer 0 or 1 proposal credit: only bounded, not pinned")
-	kit.SetChecks(kit.N(300, 10000))
+	kit.SetChecks(kit.N(250, 10000))
 	kit.SetSteps(16)
 	sh := vpC26Open(t)
 	rapid.Check(t, func(t *rapid.T) {
@@ -462,12 +462,13 @@ func TestVP_C26_history(t *testing.T) {
 		r := vpC26NewRun(t, sh.dir, sh.s, w)
 		defer func() { sh.s = r.s }()
 		r.m.check(t, r.s, "initially")
+		crashy := rapid.IntRange(0, 5).Draw(t, "crashy_case") == 0
 		t.Repeat(map[string]func(*rapid.T){
 			"submit": func(t *rapid.T) {
 				r.step(t, rapid.IntRange(0, len(w.Chains)-1).Draw(t, "chain"))
 			},
 			"crash": func(t *rapid.T) {
-				if rapid.IntRange(0, 3).Draw(t, "really") != 0 {
+				if !crashy || rapid.IntRange(0, 2).Draw(t, "really") != 0 {
 					r.step(t, rapid.IntRange(0, len(w.Chains)-1).Draw(t, "chain"))
 					return
 				}
@@ -490,7 +491,7 @@ func TestVP_C26_history(t *testing.T) {
 func TestVP_C26_reopen_every_boundary(t *testing.T) {
 	c := kit.New(t, "C26", "fault enumeration: a drawn submission list (as in TestVP_C26_history, 6..14 calls) is replayed with the store closed, reopened and the kernel restart re-submission performed after every call in one run, and (thorough tier) additionally once per single boundary k; same oracle after every call; non-trivial = list with a growing round across the boundary; distinct by (call trace, crash position)")
 	c.Require("reopened", "round-3x-growing")
-	kit.SetChecks(kit.N(6, 240))
+	kit.SetChecks(kit.N(5, 240))
 	sh := vpC26Open(t)
 	rapid.Check(t, func(t *rapid.T) {
 		// draw the workload and a fixed script of submissions first
